@@ -45,6 +45,33 @@ func init() {
 				tick("lease+"),
 			},
 		}
-		return []*hist.Scenario{a}
+		b := &hist.Scenario{
+			ID: "C05/ordered+seek+prune", Prop: "C05", Depth: d(tier, 5, 7), Drain: true,
+			Cfg: model.Cfg{Topics: []string{"T0"}, Subs: []model.SubCfg{
+				{Name: "S0", Topic: "T0", Ordered: true, Retention: 10 * time.Minute},
+			}},
+			Alphabet: []model.Op{
+				pub1("T0", "K1", 0), pub1("T0", "K2", 0),
+				pull("S0", 1), pull("S0", 10),
+				ack("S0", "oldest"), ack("S0", "all"),
+				seekT("S0", "before-all"), seekT("S0", "after-0"), snap("S0", "N0"), seekS("S0", "N0"),
+				job("prune-completed-deliveries", 0, 100), job("prune-expired-deliveries", 0, 100),
+				tick("lease+"), tick("ret+"),
+			},
+		}
+		c := &hist.Scenario{
+			ID: "C05/ordered+deadletter", Prop: "C05", Depth: d(tier, 5, 7), Drain: true,
+			Cfg: model.Cfg{Topics: []string{"T0", "TD"}, Subs: []model.SubCfg{
+				{Name: "S0", Topic: "T0", Ordered: true, DLTopic: "TD", MaxAttempts: 1},
+				{Name: "SD", Topic: "TD", Ordered: true},
+			}},
+			Alphabet: []model.Op{
+				pub1("T0", "K1", 0), pubN("T0", "K1", "K2"),
+				pull("S0", 1), pull("S0", 10), pull("SD", 1), pull("SD", 10),
+				ack("S0", "oldest"), ack("SD", "oldest"), nack("S0", "oldest"), nack("S0", "all"),
+				sweep(), tick("lease+"),
+			},
+		}
+		return []*hist.Scenario{a, b, c}
 	}
 }
